@@ -77,6 +77,9 @@ func (r *Regs) AddRegValueValidator(address int, validate func(uint16) bool) err
 }
 
 func (r *Regs) readReg(address int) (uint16, error) {
+	if address < 0 || address > 0xffff {
+		return 0, ExcIllegalAddress
+	}
 	for _, reg := range r.regs {
 		if reg.Address == uint16(address) {
 			return reg.Value, nil
@@ -100,6 +103,9 @@ func (r *Regs) ReadInputReg(address int) (uint16, error) {
 }
 
 func (r *Regs) writeReg(address int, value uint16) error {
+	if address < 0 || address > 0xffff {
+		return ExcIllegalAddress
+	}
 	for i, reg := range r.regs {
 		if reg.Address == uint16(address) {
 			// if a validator is present, check if the value is allowed
